@@ -1,7 +1,7 @@
 INIT Init
 NEXT Next
 CONSTANTS
-  Part = "scope"
+  Part = "near"
   MaxDim = 3
   NReal = 4
   NCplx = 2
